@@ -184,5 +184,5 @@ def cases(draw):
 
 
 def checks(tier):
-    n = {"quick": 8000, "thorough": 160000}.get(tier, 10)
+    n = {"quick": 8000, "thorough": 80000}.get(tier, 10)
     return [Check("affine_coordinates", fn_coords, strategy=cases(), examples=n)]
